@@ -7,6 +7,10 @@ COMMON_NOTE = ('python floats are mathematical reals (except clauses marked FP64
                'evidence file are trusted; configuration sizes (phases, elements, list items) are enumerated up to the stated bound, '
                'array lengths / mesh sizes / histories are symbolic (unbounded)')
 P = {
+ 'C09': ('Partial: the kawin-side conditions for history/caching/batching independence, from the real source: HashTable returns a cached value only for a point that truncates to the same integer key, always for such a point, never when caching is disabled or after clearCache, '
+         'integer keys stay in range; _process_xT_arrays/_process_TG_arrays give point i of a batch the numbers of point i alone (symbolic length) and leave caller arrays unchanged; _interfacialCompositionFromEq leaves gExtra unchanged and hands the backend gExtra+offset; '
+         'the diffusivity cache is read and written under the QUERIED phase only and cleared by removeCache/clearCache; local_equilibrium overwrites the state variables of every re-used composition set with the current conditions.',
+         'value equality of pycalphad results started from different cached composition sets is an ASSUMED contract on the external solver (undecidable here, listed as undecided in the evidence); builtin hash injective on admissible keys assumed'),
  'C11': ('Element order: for every ordering of 2 and 3 solutes (and a reference element that is not alphabetically first) the real _interdiffusivitySingle / _tracerDiffusivitySingle / _computeSingleMobility return at the user\'s position the backend value of the element NAMED there '
          '(matrices permuted on both axes), and _getConditions maps X(name) to the user\'s number for that name; phase order: each of the five step-size constraints returns the same dt under every permutation of the phases and their per-phase data.',
          'backend (pycalphad) equivariance assumed; P = 2 quick, P = 3 thorough'),
